@@ -38,6 +38,14 @@ def cfgZstdAA : Cfg CD :=
   { newDecoder := some (.one (.zstd (ZObj.fresh zstdObj))), enforce := true, decodeDefault := true,
     chunked := false, head := false, fuel := 1000 }
 
+/-- one complete stored-block gzip member holding "hello" (the body of `wireGzipHello`) -/
+def gzipHello : Bytes := [31, 139, 8, 0, 0, 0, 0, 0, 0, 255, 1, 5, 0, 250, 255, 104, 101, 108, 108, 111, 134, 166, 16, 54, 5, 0, 0, 0]
+
+/-- `Content-Encoding: gzip` with the decoder spelled out (independent of the generated facts) -/
+def cfgGzipHello : Cfg CD :=
+  { newDecoder := some (.one (.gzip (Gz.new gzipO))), enforce := true, decodeDefault := true,
+    chunked := false, head := false, fuel := 1000 }
+
 def out {α β} (x : Except Exc α × β) : Option α := match x.1 with | .ok a => some a | .error _ => none
 def err {α β} (x : Except Exc α × β) : Option Exc := match x.1 with | .ok _ => none | .error e => some e
 
